@@ -47,6 +47,8 @@ struct PSpec
     uint16_t vid = 0;
     uint8_t flags = 0;
     int proto = -1;        // >= 0: typed prototype
+    uint8_t ver = 0;       // != 0: this packet's own protocol version (0: the batch's)
+    int retag = 0;         // 1: the payload is given to the packet under ANOTHER type and re-typed in place through getPayload() afterwards
 };
 
 struct CaseSpec
@@ -74,8 +76,8 @@ static std::string show(const CaseSpec& c)
     for (size_t i = 0; i < c.b.size(); ++i)
     {
         const PSpec& p = c.b[i];
-        s += fmt("%s%x,%x,%u,%u,%llx,%x,%x,%x,%d", i ? "|" : "", p.mt, p.pt, p.len, p.pat, (unsigned long long) p.ts, p.ifid, p.vid, p.flags,
-                 p.proto);
+        s += fmt("%s%x,%x,%u,%u,%llx,%x,%x,%x,%d,%u,%d", i ? "|" : "", p.mt, p.pt, p.len, p.pat, (unsigned long long) p.ts, p.ifid, p.vid, p.flags,
+                 p.proto, p.ver, p.retag);
     }
     return s;
 }
@@ -113,6 +115,11 @@ static CaseSpec parseCase(const std::string& s)
         p.vid = (uint16_t) strtoul(f[6].c_str(), nullptr, 16);
         p.flags = (uint8_t) strtoul(f[7].c_str(), nullptr, 16);
         p.proto = atoi(f[8].c_str());
+        if (f.size() > 10)
+        {
+            p.ver = (uint8_t) atoi(f[9].c_str());
+            p.retag = atoi(f[10].c_str());
+        }
         c.b.push_back(p);
     }
     return c;
@@ -174,7 +181,7 @@ static Built build(const CaseSpec& c)
     {
         PSpec s = c.b[i];
         Packet p;
-        p.setVersion(c.ver);
+        p.setVersion(s.ver ? s.ver : c.ver);
         if (c.junk)
         {
             p.setDeviceId((uint16_t) (0xDEA0 + i));
@@ -202,7 +209,14 @@ static Built build(const CaseSpec& c)
         else
         {
             Bytes d = pattern(s.len, s.pat);
-            p.setPayload(Payload(PayloadType(static_cast<CmpHeader::MessageType>(s.mt), s.pt), d.data(), d.size()));
+            if (s.retag)
+            {
+                // given to the packet as a payload of another message type and payload type, then edited in place into the intended one
+                p.setPayload(Payload(PayloadType(static_cast<CmpHeader::MessageType>(s.mt == 1 ? 3 : 1), (uint8_t) (s.pt ^ 0x55)), d.data(), d.size()));
+                p.getPayload().setType(PayloadType(static_cast<CmpHeader::MessageType>(s.mt), s.pt));
+            }
+            else
+                p.setPayload(Payload(PayloadType(static_cast<CmpHeader::MessageType>(s.mt), s.pt), d.data(), d.size()));
         }
         const Payload& pl = p.getPayload();
         r.bytes.emplace_back(pl.getRawPayload(), pl.getRawPayload() + pl.getLength());
@@ -903,6 +917,27 @@ static void runTask(W& w, const std::string& prop, const Domain& d, const Task& 
                 }
             }
         for (auto v : vers) { shape(t.first); c.ver = v; exec(); }
+        // payloads re-typed in place after they were given to the packet: one packet at every position, and all of them
+        for (size_t i = 0; ; ++i)
+        {
+            shape(t.first);
+            if (i > c.b.size())
+                break;
+            for (size_t q = 0; q < c.b.size(); ++q)
+                if (i == c.b.size() || q == i)
+                    c.b[q].retag = 1;
+            exec();
+        }
+        // packets of one batch with protocol versions of their own (frame-level properties only: what version a frame announces for
+        // such a batch is not fixed by any property): alternating, and changing exactly where the message type changes
+        if (prop != "C01")
+            for (int mode = 0; mode < 3; ++mode)
+            {
+                shape(t.first);
+                for (size_t q = 0; q < c.b.size(); ++q)
+                    c.b[q].ver = mode == 0 ? (uint8_t) (1 + q % 2) : (mode == 1 ? (uint8_t) (c.b[q].mt == 1 ? 1 : 2) : (uint8_t) (q == 0 ? 1 : 2));
+                exec();
+            }
         for (auto v : devs) { shape(t.first); c.dev = v; exec(); }
         for (auto v : strs) { shape(t.first); c.str = v; exec(); }
         for (int jk = 0; jk < 3; ++jk) { shape(t.first); c.junk = jk; exec(); }   // 2: also the segment-type attribute of every packet is set
